@@ -301,7 +301,11 @@ def gen_model(rng, data_independent=False, allow=None, max_layers=5):
     layers.append({"t": "Flatten"})
   elif cur == "seq":
     layers.append({"t": "Flatten"})
-  m = {"input": kind, "layers": layers, "wseed": rng.subseed()}
+  m = {"input": kind, "layers": layers, "wseed": rng.subseed(),
+       "out": rng.wpick([("dense", 5), ("qdense", 3), ("none", 2)])}
+  if m["out"] == "none" and layers and layers[-1]["t"] == "Flatten" and \
+      len(layers) == 1:
+    m["out"] = "dense"
   if rng.chance(0.25) and kind == "vec":
     m["branch"] = True
   if rng.chance(0.3):
@@ -409,9 +413,22 @@ def build_model(mspec):
   shape = INPUTS[mspec["input"]]
   layers = [_layer(l, "l%d_%s" % (i, l["t"].lower()))
             for i, l in enumerate(mspec["layers"])]
+  def out_layers():
+    o = mspec.get("out", "dense")
+    if o == "dense":
+      return [keras.layers.Dense(2, name="out")]
+    if o == "qdense":
+      import qkeras as qk
+      return [qk.QDense(2, kernel_quantizer=make_q(
+          {"cls": "quantized_bits", "kw": {"bits": 6, "integer": 1,
+                                           "alpha": 1.0}}),
+                        bias_quantizer=make_q(
+                            {"cls": "quantized_bits",
+                             "kw": {"bits": 6, "integer": 1}}), name="out")]
+    return []          # "none": the model ends with its last generated layer
   if mspec.get("sequential"):
     model = keras.Sequential([keras.Input(shape, name="in")] + layers +
-                             [keras.layers.Dense(2, name="out")], name="m")
+                             out_layers(), name="m")
   else:
     inp = keras.Input(shape, name="in")
     x = inp
@@ -422,7 +439,8 @@ def build_model(mspec):
       a = qk.QDense(3, kernel_quantizer="quantized_bits(4,0,1)", name="br_a")(x)
       b = keras.layers.Dense(3, name="br_b")(x)
       x = keras.layers.Add(name="br_add")([a, b])
-    x = keras.layers.Dense(2, name="out")(x)
+    for lay in out_layers():
+      x = lay(x)
     model = keras.Model(inp, x, name="m")
   set_seeded_weights(model, mspec.get("wseed", 0))
   return model
